@@ -95,7 +95,18 @@ def regression_scenarios():
     # forced tie: a neutral validation batch (loss independent of the weights) while training moves the weights
     tie = dict(base, nbv=1, opt={'kind': 'sgd', 'lr': 0.25}, valid_script=[[[0, -2]]],
                ops=[{'op': 'fit', 'max_epochs': 4, 'cbs': rec_cb}])
-    return [('known-F7-closure-novalid', f7, True), ('forced-tie', tie, True)]
+    # the REAL neurodiffeq.callbacks.SetLossFn under a real PeriodLocal condition fires after epoch 2; the validation batch is
+    # neutral (its loss does not depend on the weights), and the loss installed later is the LARGER one: the minimum stays early
+    cfg, conds, vb = base['cfg'], [T.cond_model(c) for c in base['conds']], [[0, -2]]
+    l0, l1 = T.ref_loss(cfg, 0, conds, [0], vb), T.ref_loss(cfg, 1, conds, [0], vb)
+    lo_id, hi_id = (0, 1) if l0 < l1 else (1, 0)
+    real = dict(base, nbv=1, lid=lo_id, opt={'kind': 'sgd', 'lr': 0.25}, valid_script=[vb],
+                ops=[{'op': 'fit', 'max_epochs': 5, 'cbs': [[{'when': None, 'act': {'kind': 'real_set_loss', 'lid': hi_id, 'reset': False,
+                                                                                     'cond': {'type': 'period', 'period': 2, 'offset': 0}}}],
+                                                            [{'when': None, 'act': {'kind': 'real_set_opt', 'reset': True,
+                                                                                     'opt': {'kind': 'sgd', 'lr': 0.125},
+                                                                                     'cond': {'type': 'period', 'period': 3, 'offset': 1}}}]] + rec_cb}])
+    return [('known-F7-closure-novalid', f7, True), ('forced-tie', tie, True), ('real-SetLossFn-SetOptimizer', real, True)]
 
 
 def main():
@@ -132,7 +143,8 @@ def main():
             camp.add(f'trace#{i}', sc, exact=False)
             continue
         tie = i % 3 != 2
-        sc = T.gen_scenario(r, opt_kinds=('sgd', 'script', 'sgd'), cb_actions=('stop', 'set_loss', 'set_opt', 'set_theta'),
+        sc = T.gen_scenario(r, opt_kinds=('sgd', 'script', 'sgd'),
+                            cb_actions=('stop', 'set_loss', 'set_opt', 'set_theta', 'real_set_loss', 'real_set_opt', 'real_set_loss'),
                             between_actions=('set_theta', 'set_loss', 'set_opt') if i % 4 == 1 else (), nbv=nbv,
                             lids=(0, 1) if tie else (0, 1, 2, 3), tie=tie, max_epochs=(1, 6), nmetrics=(0, 1))
         rec = camp.add(f'exact#{i}', sc, exact=True)
